@@ -73,9 +73,12 @@ def verif_copy():
     """scratch copy of /verif (sources + build output), refreshed from the working tree"""
     dst = os.path.join(SCRATCH, 'verif-%d' % os.getpid())
     os.makedirs(dst, exist_ok=True)
-    rc, out = sh(['rsync', '-a', '--delete', '--exclude', '.git', '--exclude', 'replays', '--exclude', 'seeded',
-                  '--exclude', 'work', '--exclude', '__pycache__',
-                  ROOT + '/', dst + '/'])
+    for _attempt in range(3):
+        rc, out = sh(['rsync', '-a', '--delete', '--exclude', '.git', '--exclude', 'replays', '--exclude', 'seeded',
+                      '--exclude', 'work', '--exclude', '__pycache__',
+                      ROOT + '/', dst + '/'])
+        if rc != 24:          # 24: a file vanished while a build was running in the source tree; copy again
+            break
     if rc:
         raise SystemExit(out)
     return dst
